@@ -35,6 +35,10 @@ pub struct Script {
     pub tail: String,
     #[serde(default = "dtrue")]
     pub tail_ok: bool,
+    /// what a scripted stream reports as `size_hint` (all of them valid hints): 0 the default `(0, None)`,
+    /// 1 exact, 2 upper bound too large by three, 3 upper bound `usize::MAX`
+    #[serde(default)]
+    pub hint: u8,
 }
 fn ddone() -> String {
     "done".into()
